@@ -180,6 +180,9 @@ class Emitter:
             s = str(e[1])
         elif tag == "F":
             s = e[1]
+            if s.startswith("0.") and self.flip(1, 3):
+                self.labels.add("float-without-leading-zero")
+                s = s[1:]                 # '.5' is a FLOAT token too
         elif tag == "S":
             s = e[1]
         elif tag in FUNC:
